@@ -135,21 +135,27 @@ func (k msgServer) Complete(goCtx context.Context, msg *types.MsgComplete) (*typ
 			return nil, err
 		}
 		k.order.RemoveShard(ctx, oldShard.Id)
-		if len(oldShard.RenewInfos) > 1 {
-			for i := 0; i < len(oldShard.RenewInfos)-1; i++ {
-				order, _ := k.order.GetOrder(ctx, oldShard.RenewInfos[i].OrderId)
-				orderList = append(orderList, &order)
+		// every renewal order queued on the old shard lists it, whether the renewal came before or after the migration request
+		for _, renewInfo := range oldShard.RenewInfos {
+			if renewInfo.OrderId == order.Id || renewInfo.OrderId == orderInProgress.Id {
+				continue
 			}
+			renewOrder, _ := k.order.GetOrder(ctx, renewInfo.OrderId)
+			orderList = append(orderList, &renewOrder)
 		}
-		for i, order := range orderList {
+		for _, order := range orderList {
 			newShards := make([]uint64, 0)
+			listed := false
 			for _, id := range order.Shards {
+				if id == shard.Id {
+					listed = true
+				}
 				if id != oldShard.Id {
 					newShards = append(newShards, id)
 				}
 			}
-			// first order has set new shard in shards in migrate
-			if i > 0 {
+			// orders written since the migration was requested list the new shard already
+			if !listed {
 				newShards = append(newShards, shard.Id)
 			}
 			order.Shards = newShards
